@@ -38,16 +38,27 @@ func opEnc(key, nonce, pt []byte) {
 			}
 		}()
 		randSrc.queue = append([]byte(nil), nonce...)
-		before := append([]byte(nil), pt...)
-		c, err := crypto.Encrypt(pt, key)
+		// plaintext handed over as a window of a larger caller-owned buffer (spare capacity behind it)
+		arena := make([]byte, len(pt)+96)
+		win := arena[8 : 8+len(pt)]
+		copy(win, pt)
+		before := append([]byte(nil), arena...)
+		c, err := crypto.Encrypt(win, key)
 		randSrc.queue = nil
 		if err != nil {
 			return errClass(err)
 		}
-		if string(before) != string(pt) {
+		if string(before) != string(arena) {
 			return "caller-buffer-modified"
 		}
-		return "ok:" + hx(c)
+		out := hx(c)
+		for i := range arena {
+			arena[i] = 0xA5
+		}
+		if hx(c) != out {
+			return "result-aliases-caller-buffer"
+		}
+		return "ok:" + out
 	}()
 	emit(op, obs)
 }
@@ -60,15 +71,25 @@ func opDec(key, c []byte) {
 				res = "panic"
 			}
 		}()
-		before := append([]byte(nil), c...)
-		p, err := crypto.Decrypt(c, key)
+		arena := make([]byte, len(c)+96)
+		win := arena[8 : 8+len(c)]
+		copy(win, c)
+		before := append([]byte(nil), arena...)
+		p, err := crypto.Decrypt(win, key)
 		if err != nil {
 			return errClass(err)
 		}
-		if string(before) != string(c) {
+		if string(before) != string(arena) {
 			return "caller-buffer-modified"
 		}
-		return "ok:" + hx(p)
+		out := hx(p)
+		for i := range arena {
+			arena[i] = 0xA5
+		}
+		if hx(p) != out {
+			return "result-aliases-caller-buffer"
+		}
+		return "ok:" + out
 	}()
 	emit(op, obs)
 }
